@@ -1022,7 +1022,6 @@ func pkgPathOf(fn *ssa.Function) string {
 	return ""
 }
 
-
 // callBody runs fn's SSA body even though an intrinsic is registered for it.
 func (ex *Exec) callBody(caller *frame, fn *ssa.Function, args []Value) Value {
 	ex.skipIntrinsic = fn
